@@ -63,6 +63,10 @@ def _rand_bits(rng, n):
 
 def gen_case(run_seed: int, index: int, tier: str) -> dict:
     rng = core.rng_for(run_seed)
+    if tier == "thorough" and index % 400000 == 21:
+        # counters beyond 2**31: a symbol-error-rate run of 17 updates of 2**27 symbols each (thorough tier only: ~30 s, ~1 GB)
+        return {"metric": "wrap", "updates": 17, "symbols_per_update": 1 << 27, "errors_every": rng.choice([1000, 4096]), "complex": False, "dtype": "int8",
+                "L": 1 << 27, "block": 1, "how": "class", "ops": [], "X": [], "Y": []}
     metric = rng.choice(["ber", "bler", "bler", "pair"])
     cplx = rng.random() < 0.25
     L = rng.choice([1, 2, 3, 4, 6, 8, 12, 16, 24, 30, 30, 64, 100, 128, 255, 1000])
@@ -123,6 +127,9 @@ def gen_case(run_seed: int, index: int, tier: str) -> dict:
                 # a rejected call on the live object; nothing is asked of it until the reset that follows
                 ops.append(["reject_live", rng.choice(["update", "forward", "shape"]), rng.randrange(npool)])
                 ops.append(["reset"])
+        elif r < p_reset + p_compute + 0.1325 and L <= 64:
+            # the two arguments are views of one buffer (a square matrix and its transpose; every other element vs a prefix)
+            ops.append(["alias_pair", rng.choice(["transpose", "strided_vs_prefix"]), [rng.randrange(npool) for _ in range(L)]])
         elif r < p_reset + p_compute + 0.135:
             ops.append(["neutral", rng.choice(["eval", "train", "to_cpu", "float", "zero_grad", "state_dict_read", "str"])])
         elif r < p_reset + p_compute + 0.15 and L >= 3:
@@ -197,9 +204,35 @@ def _close(got: float, ref: float) -> bool:
     return abs(got - ref) <= 2e-6 * abs(ref) + 1e-9
 
 
+def _execute_wrap(case, log, res):
+    m = bler_mod.BlockErrorRate(block_size=1)
+    n = case["symbols_per_update"]
+    x = torch.zeros(1, n, dtype=torch.int8)
+    y = torch.zeros(1, n, dtype=torch.int8)
+    y[0, :: case["errors_every"]] = 1
+    errs_per = int(y.sum())
+    tot = err = 0
+    for u in range(case["updates"]):
+        m.update(x, y)
+        tot += n
+        err += errs_per
+        got = float(m.compute())
+        if not _close(got, err / tot):
+            res.violations.append(Violation({"component": "BlockErrorRate", "kind": "streaming_value", "complex": False, "regime": "beyond_2^31_blocks" if tot >= (1 << 31) else "large"},
+                                            f"C16/BlockErrorRate: compute() = {got!r} after {u + 1} updates of 2^27 symbols; reference counter says {err}/{tot} = {err / tot!r}"))
+            break
+    log.add("wrap", {"updates": case["updates"], "total": tot, "errors": err})
+    res.nontrivial.append(core.short_hash(case))
+    res.probes["counter_beyond_2^31_cases"] += 1
+    res.digest, res.n_events = log.digest(), len(log)
+    return res
+
+
 def execute(case: dict) -> RunResult:
     log = EventLog()
     res = RunResult()
+    if case.get("metric") == "wrap":
+        return _execute_wrap(case, log, res)
     log.add("case", {k: case[k] for k in ("metric", "complex", "dtype", "L", "block", "how")})
     kinds = ["ber", "bler"] if case["metric"] == "pair" else [case["metric"]]
     objs = {k: _make(case, k) for k in kinds}
@@ -356,6 +389,43 @@ def execute(case: dict) -> RunResult:
                 elif not _close(float(got), want):
                     violate(cname[k], "oneshot_value", f"metric(x, y) on the live object = {float(got)!r} on rows {rows}; exact fraction is {want!r}")
             res.faults["history.oneshot_on_live_object"] += 1
+        elif op[0] == "alias_pair":
+            how, rows = op[1], op[2]
+            base = _mk_tensor(case, rows, "X", "2d")  # (L, L), real or complex
+            if how == "transpose":
+                xa, ya = base, base.transpose(0, 1)
+            else:
+                flatb = base.reshape(-1)
+                half = flatb.numel() // 2
+                xa, ya = flatb[:half].reshape(1, -1), flatb[::2][:half].reshape(1, -1)
+            if xa.shape == ya.shape and xa.numel() > 0:
+                w_ = 2 if case["complex"] else 1
+                if case["complex"]:
+                    diffbits = int(((xa.real > 0.5) != (ya.real > 0.5)).sum() + ((xa.imag > 0.5) != (ya.imag > 0.5)).sum())
+                else:
+                    diffbits = int(((xa > 0.5) != (ya > 0.5)).sum())
+                totbits = xa.numel() * w_
+                if "ber" in objs:
+                    got = float(_make(case, "ber")(xa, ya))
+                    log.add("alias_pair", {"how": how, "value": got})
+                    if not _close(got, diffbits / totbits):
+                        violate("BitErrorRate", "oneshot_value", f"metric(x, y) = {got!r} for two views of one buffer ({how}); exact fraction is {diffbits}/{totbits}", aliasing=how)
+                    o = objs["ber"]
+                    o.update(xa, ya)
+                    ref["ber"][0] += diffbits
+                    ref["ber"][1] += totbits
+                    if "bler" in objs:  # keep the paired object on the same data
+                        blk = block or xa.shape[-1]  # no block size: one block per row
+                        if xa.shape[-1] % blk == 0:
+                            xb, yb = xa.contiguous(), ya.contiguous()
+                            eb = (torch.abs(xb - yb) > 0).reshape(xb.shape[0], -1, blk).any(dim=-1)
+                            objs["bler"].update(xa, ya)
+                            ref["bler"][0] += int(eb.sum())
+                            ref["bler"][1] += int(eb.numel())
+                        else:
+                            objs["bler"].reset(); ref["bler"] = [0, 0]
+                    n_updates += 1
+                    res.faults["delivery.aliased_argument_pair"] += 1
         elif op[0] == "reject_live":
             how, r = op[1], op[2]
             x = _mk_tensor(case, [r], "X", "2d")
